@@ -103,7 +103,10 @@ func checkC01(c *Ctx) {
 				c.bad("O4 inc", key, in.Pos(), "counter.curr is written by something other than one atomic add of the function's argument: increments are lost or invented", c.describe(in))
 				continue
 			}
-			cnt := c.newPathCounter(func(i ssa.Instruction) bool { o := atomicOpOf(i); return o != nil && o.Field == fCurr && o.Kind != "load" }, 1).fn(fn, 1)
+			cnt := c.newPathCounter(func(i ssa.Instruction) bool {
+				o := atomicOpOf(i)
+				return o != nil && o.Field == fCurr && o.Kind != "load"
+			}, 1).fn(fn, 1)
 			c.check(cnt.min == 1 && cnt.max == 1, "O4 inc", key, in.Pos(), "exactly one atomic add of the argument on every path",
 				fmt.Sprintf("the increment is applied between %d and %d times depending on the path", cnt.min, cnt.max), c.describe(in))
 		}
